@@ -553,6 +553,11 @@ struct Dev {
     /// C compilers do the same (clang cites C99 5.1.1.2p4, GCC stops its look-ahead at the end of a buffer); the
     /// property's wording, "equivalent to pasting the file's contents", does not
     blocks_at_file_boundary: bool,
+    /// a replacement list is rescanned on its own: an argument list that begins in it must end in it (`#define F(X) X +`,
+    /// `#define G F(1`; `G) 2`: C reads `F(1)` across the end of `G`'s replacement list, RSSL reports
+    /// `MacroArgumentsNeverEnd`).  Found when the shrinker of this harness dropped a `)` from a replacement list; the
+    /// generators keep the parentheses of a replacement list balanced, so only the corpus exercises it
+    args_end_in_list: bool,
 }
 
 const DEV_NAMES: &[&str] = &[
@@ -566,6 +571,7 @@ const DEV_NAMES: &[&str] = &[
     "painted-function-name-reinvoked",
     "function-name-before-vanished-macro-invoked",
     "invocation-spans-file-boundary",
+    "argument-list-ends-behind-replacement-list",
 ];
 
 /// the deviation switches that are offered as explanations of a disagreement.  `paste-in-api-define` (4) and
@@ -595,6 +601,7 @@ impl Dev {
             reinvoke_painted: b & 128 != 0,
             reinvoke_deferred: b & 256 != 0,
             blocks_at_file_boundary: b & 512 != 0,
+            args_end_in_list: b & 1024 != 0,
         }
     }
     fn names(b: u32) -> String {
@@ -737,7 +744,8 @@ impl<'a> Reference<'a> {
         let mut out: Vec<RTok> = Vec::new();
         // `ts` is kept reversed so that the head is popped cheaply
         ts.reverse();
-        let markers = self.dev.reinvoke_painted || self.dev.reinvoke_deferred || self.dev.no_placemarker;
+        let markers =
+            self.dev.reinvoke_painted || self.dev.reinvoke_deferred || self.dev.no_placemarker || self.dev.args_end_in_list;
         while let Some(t) = ts.pop() {
             self.tick()?;
             let name = match &t.k {
@@ -885,7 +893,12 @@ impl<'a> Reference<'a> {
                             None => return Err(RefErr::Unterminated),
                         };
                         match a.k {
-                            RK::RegionEnd(..) => {}
+                            RK::RegionEnd(..) => {
+                                // the end of a replacement list that holds the `(`: RSSL scans that list on its own
+                                if self.dev.args_end_in_list {
+                                    return Err(RefErr::Unterminated);
+                                }
+                            }
                             RK::LParen => {
                                 depth += 1;
                                 args.last_mut().unwrap().push(a);
@@ -1901,7 +1914,13 @@ fn generate_higher_order(rng: &mut Rng, hist: &mut Hist) -> Program {
         let cands: Vec<usize> = (0..nw).filter(|w| arity[*w] == k).collect();
         let w = if cands.is_empty() || rng.chance(1, 20) {
             hist.add("higher-order:worker-of-another-arity");
-            rng.below(nw as u64) as usize
+            // (never a unary worker on an empty argument list: the argument would be empty, and next to the `##` of the
+            // pasting worker that is the known deviation empty-argument-next-to-paste)
+            let other: Vec<usize> = (0..nw).filter(|w| !(k == 0 && arity[*w] == 1)).collect();
+            if other.is_empty() {
+                continue;
+            }
+            *rng.pick(&other)
         } else {
             *rng.pick(&cands)
         };
@@ -2323,7 +2342,7 @@ fn judge_with(p: &Program, real: Option<Real>, out: &mut Out, hist: &mut Hist) {
     if oracle.starts_with("FAIL:differs-from-C[unexplained]") {
         // a difference from C that no known deviation reproduces: report the smallest program we can find with it first
         // (the first failing input of a finding key is the one the check reports)
-        if let Some(small) = shrink_unexplained(p, hist) {
+        if let Some(small) = shrink_unexplained(p, hist).filter(|q| q.encode() != p.encode()) {
             if let Some(r) = run_real_in_worker(&small) {
                 let o2 = oracle_of(&small, &r, &mut Hist::default());
                 if o2.starts_with("FAIL:differs-from-C[unexplained]") {
